@@ -21,9 +21,10 @@ from harness import coqemit as E
 from harness import fieldgen as G
 from harness import structgen as S
 from harness.genmods import templates as gen
+from harness import c18lattice as L
 
 SCALARS = ("num", "str", "bool", "enumlit", "enumcls")
-IMPORTS = G.IMPORTS + "from typedpy import Deserializer\n"
+IMPORTS = G.IMPORTS + "from typedpy import Deserializer\n" + L.IMPORTS
 
 
 # ------------------------------------------------------------------ generation of flat classes
@@ -72,7 +73,19 @@ def realise(c):
     return ns[c["name"]], ns
 
 
+# values of a class no scalar field accepts: unhashable ones, hashable containers, an enum member
+ODD_VALUES = [("list", [("int", 1)]), ("list", []), ("dict", [(("str", "k"), ("int", 1))]), ("dict", []),
+              ("set", False, [("int", 1)]), ("deque", [("int", 1)]), ("tuple", [("list", [])]),
+              ("tuple", [("int", 1)]), ("tuple", []), ("set", True, [("int", 1)]), ("enum", "Color", "RED", ("int", 1))]
+
+
 def wrong_type(g, rnd):
+    if rnd.random() < 0.3:
+        return rnd.choice(ODD_VALUES)
+    return _wrong_type(g, rnd)
+
+
+def _wrong_type(g, rnd):
     t = g["t"]
     if t == "num":
         return rnd.choice([("str", "zz"), ("str", "7"), ("list", [("int", 1)])]) if rnd.random() < 0.8 else ("none",)
@@ -287,11 +300,44 @@ def origin_of(e):
     return (os.path.relpath(fr.f_code.co_filename, TYPEDPY_DIR), fr.f_code.co_name, last.tb_lineno, fr)
 
 
+def raise_statement_at(rel, line):
+    """The template of the `raise` statement of typedpy/<rel> that spans `line`, or None: the exception
+    then comes from the interpreter / a library while an expression of that line was evaluated."""
+    for t in template_table():
+        if t["file"] == rel and t["line"] <= line <= t["end_line"]:
+            return t
+    return None
+
+
+def leaf_kind(obj):
+    """The kind of the field object whose method raised, in the vocabulary of the generators: the class
+    name, and for Enum (one class, two validation branches) which of the two it is."""
+    if obj is None:
+        return "-"
+    name = type(obj).__name__
+    if hasattr(obj, "_is_enum"):
+        name += "[cls]" if getattr(obj, "_is_enum") else "[values]"
+    return re.sub(r"[^A-Za-z0-9_\[\]]", "_", name)
+
+
 def origin_key(e):
+    """file:function:exception of the innermost typedpy frame.  An exception that no `raise` statement of
+    typedpy produced (a comparison, a hash, an index that failed) is further keyed by WHICH kind of field
+    was validating WHICH class of value: one such key = one root cause, so that a known finding about one
+    field kind never covers the same symptom appearing in another."""
     o = origin_of(e)
     if o is None:
         return "outside-typedpy:%s" % type(e).__name__
-    return "%s:%s:%s" % (os.path.basename(o[0]), o[1], type(e).__name__)
+    rel, fn, line, fr = o
+    key = "%s:%s:%s" % (os.path.basename(rel), fn, type(e).__name__)
+    if raise_statement_at(rel, line) is None:
+        loc = fr.f_locals
+        val = loc["value"] if "value" in loc else loc.get("source_val", loc.get("val", _MISSING))
+        key += "/%s/%s" % (leaf_kind(loc.get("self")), "-" if val is _MISSING else type(val).__name__)
+    return key
+
+
+_MISSING = object()
 
 
 def site_of(e):
@@ -301,8 +347,8 @@ def site_of(e):
     if o is None:
         return None
     rel, _, line, fr = o
-    for t in template_table():
-        if t["file"] == rel and t["line"] <= line <= t["end_line"]:
+    for t in [raise_statement_at(rel, line)]:
+        if t is not None:
             env = dict(fr.f_globals)
             loc = dict(fr.f_locals)
             params = {}
@@ -1014,7 +1060,34 @@ def run(rep, tier):
         if i < 2:
             rep.sample({"class": S.class_src(case.cast), "kwargs": {k: G.py_src(v) for k, v in case.kw},
                         "invalid_on_their_own": sorted(n for n, o in case.orc.items() if o["ctor"])})
+    if os.environ.get("C18_TIMING"):
+        print("[c18] random cases: %.1fs" % (_t.time() - _t0))
+    # ---- the enumerated part of the input space: leaf kind x value class x position
+    pts = L.points(tier, core.seed())
+    for label, cast, kw, meta, base in pts:
+        try:
+            case = Case(cast, kw, dict(meta, __baseline__={k: G.unreify(v, {}) for k, v in base.items()}))
+        except Exception as ex:  # noqa   a combination typedpy does not let one declare (e.g. an unhashable key field)
+            rep.stat("lattice", "undeclarable:%s:%s" % (label.split("|")[0] + "|" + label.split("|")[2], type(ex).__name__))
+            continue
+        cases.append(case)
+        try:
+            fails = evaluate_case(case, rep, streams)
+        finally:
+            Structure.set_fail_fast(True)
+        inv = bool(case.orc["a"]["ctor"] or case.orc["a"]["pre"] or case.orc["a"]["post"])
+        rep.count("lattice", 4, label if inv else None)
+        rep.stat("lattice", "position:%s:%s" % (label.split("|")[2], "invalid" if inv else "valid"))
+        for f in fails:
+            key, text, mode, ff = f[:4]
+            rep.finding(key, text, case_replay_obj(case, mode, ff, only=f[4] if len(f) > 4 else None))
+            all_fails.append(key)
+    if os.environ.get("C18_TIMING"):
+        print("[c18] with %d lattice points: %.1fs" % (len(pts), _t.time() - _t0))
     nn = nested_checks(rep)
+    if os.environ.get("C18_KEYS"):
+        for k, n in sorted(collections.Counter(all_fails).items()):
+            print("[c18] key %4d %s" % (n, k))
     assert Structure.failing_fast()
     rep.obligation("state:fail-fast-switch-restored", Structure.failing_fast(), "")
 
